@@ -486,7 +486,23 @@ theorem step_expr (hS : SigClosed S) (hP : okProg S P = true) {n : Nat} (ih : So
             simp only [Bool.and_eq_true, Option.isNone_iff_eq_none] at hb
             obtain ⟨hg, hb⟩ := hb
             cases hbt : builtinTy fn with
-            | none => simp [hbt] at hb
+            | none =>
+              -- `missing`: always panics
+              simp only [hbt, Bool.and_eq_true, beq_iff_eq] at hb
+              obtain ⟨rfl, hshape⟩ := hb
+              exfalso
+              rw [htf] at hshape
+              cases hga : getTys args with
+              | nil => simp [hga] at hshape
+              | cons t1 rest =>
+                cases rest with
+                | cons _ _ => cases t1 <;> simp [hga] at hshape
+                | nil =>
+                  rw [hga] at hvs
+                  simp only [substTys] at hvs
+                  obtain ⟨a, rfl, _⟩ := VTs_single hvs
+                  rw [apply_fn, hg] at hev
+                  simp [builtin] at hev
             | some bt =>
               simp only [hbt] at hb
               have := tyEq hb
